@@ -38,6 +38,8 @@ ALL_INV = "TypeOK OwnAnswer ChanOwn ReaderNeverBlocks RegisteredWhileWaiting NoL
 # --------------------------------------------------------------------------------------------- build
 def build_race(ck):
     """the harness built with the race detector (needs cgo); falls back to a plain build with a note"""
+    import shutil
+    shutil.copy(os.path.join(vlib.REPO, "go.sum"), os.path.join(vlib.HARNESS, "go.sum"))
     out = os.path.join(ck.work, "vh_race")
     env = dict(vlib.GOENV, CGO_ENABLED="1")
     for attempt in range(3):
@@ -52,7 +54,7 @@ def build_race(ck):
     if "internal/c12/" in p.stdout or "/repo/" in p.stdout:
         raise Infra("harness does not build against /repo:\n" + p.stdout[-4000:])
     ck.notes.append("race detector unavailable (go build -race failed: %s); executions ran without it" % p.stdout.strip()[-300:])
-    return ck.vh, False
+    return ck.build_vh(), False
 
 
 # ------------------------------------------------------------------------------------ model checking
@@ -260,13 +262,14 @@ def trace_key(rj, res):
     return "C12:trace:%s" % k
 
 
-def trace_cfg(ck):
+def trace_cfg(ck, nconns, maxcalls):
     cfg = open(os.path.join(vlib.SPEC, "trace/LiteClient_Trace.cfg")).read()
-    for a, b in (("Slack = 400", "Slack = %d" % SLACK_MS), ("RecoverMs = 7500", "RecoverMs = %d" % RECOVER_MS), ("RetryMs = 1000", "RetryMs = %d" % RETRY_MS)):
+    for a, b in (("Slack = 400", "Slack = %d" % SLACK_MS), ("RecoverMs = 7500", "RecoverMs = %d" % RECOVER_MS), ("RetryMs = 1000", "RetryMs = %d" % RETRY_MS),
+                 ("NConns = 2", "NConns = %d" % nconns), ("MaxCalls = 80", "MaxCalls = %d" % maxcalls)):
         if a not in cfg:
             raise Infra("trace/LiteClient_Trace.cfg: expected '%s'" % a)
         cfg = cfg.replace(a, b)
-    p = os.path.join(ck.work, "LiteClient_Trace_run.cfg")
+    p = os.path.join(ck.work, "LiteClient_Trace_k%d_n%d.cfg" % (nconns, maxcalls))
     open(p, "w").write(cfg)
     return os.path.relpath(p, vlib.SPEC)
 
@@ -276,13 +279,14 @@ def segments_of(path):
     return evs
 
 
-def validate(ck, cfg, execs, name):
+def validate(ck, execs, name):
     """validate the traces of `execs` (all with the same number of connections) in one TLC run.
     returns {script id: rejection or None}"""
     evs, starts = [], {}
     for x in execs:
         starts[len(evs) + 1] = x.script["id"]
         evs += segments_of(x.trace)
+    cfg = trace_cfg(ck, execs[0].script["nconns"], max(e["ncalls"] for e in evs if e["k"] == "Reset"))
     tp = os.path.join(ck.work, "trace_%s.ndjson" % name)
     vlib.write_ndjson(tp, evs + [{"k": "End", "events": len(evs)}])
     _, rej = ck.validate_segments("LiteClient_Trace", cfg, tp, timeout=2400, name="trace_" + name, heap_gb=4)
@@ -326,7 +330,6 @@ def run(ck):
                        "runs without any hook installed (mode bare)",
                        "goroutines are counted by entry function from runtime.Stack; a reconnect goroutine spawned by a failed Send counts as transient "
                        "until it has taken Connection.mu"]
-    ck.build_vh()
     binary, raced = build_race(ck)
     ck.extra["race_detector"] = raced
     ck.extra["slack_ms"] = SLACK_MS
@@ -390,13 +393,12 @@ def run(ck):
     for x in execs:
         if x.res is None and not harness_findings(x):
             raise Infra("execution of script %d (%s) failed (rc=%s):\n%s" % (x.script["id"], x.script["cls"], x.rc, x.stderr[-3000:]))
-    cfg = trace_cfg(ck)
 
     # ---- C->S: TLC judges every traced execution
     traced = [x for x in execs if x.script["mode"] == "traced" and x.trace]
     shards = shard_by_conns(traced, 40000)
     verdicts = {}
-    for d in vlib.parallel(lambda a: validate(ck, cfg, a[1][1], "%02d_k%d" % (a[0], a[1][0])), list(enumerate(shards)), n=8 if not ck.thorough else 12):
+    for d in vlib.parallel(lambda a: validate(ck, a[1][1], "%02d_k%d" % (a[0], a[1][0])), list(enumerate(shards)), n=8 if not ck.thorough else 12):
         verdicts.update(d)
 
     # ---- findings: harness assertions and rejected traces; everything is re-executed before it is reported
@@ -404,7 +406,7 @@ def run(ck):
         fs = harness_findings(x)
         rj = None
         if x.script["mode"] == "traced" and x.trace and x.res is not None:
-            rj = validate(ck, cfg, [x], "%s_%d" % (tag, x.script["id"]))[x.script["id"]]
+            rj = validate(ck, [x], "%s_%d" % (tag, x.script["id"]))[x.script["id"]]
             if rj:
                 fs.append((trace_key(rj, x.res), "not a behaviour of LiteClient: accepted %d of %d events; rejected event %s" % (
                     rj["accepted"], rj["length"], json.dumps(short(rj["event"])))))
@@ -489,7 +491,7 @@ def run(ck):
         cp = os.path.join(ck.work, "canary_trace.ndjson")
         vlib.write_ndjson(cp, [e for _, s, _ in cans for e in s] + [{"k": "End"}])
         st, trn, ok, evn = ck.states, ck.transitions, ck.traces_ok, ck.evaluations
-        _, rej = ck.validate_segments("LiteClient_Trace", cfg, cp, name="canary", heap_gb=4)
+        _, rej = ck.validate_segments("LiteClient_Trace", trace_cfg(ck, x.script["nconns"], seg[0]["ncalls"]), cp, name="canary", heap_gb=4)
         ck.states, ck.transitions, ck.traces_ok, ck.evaluations = st, trn, ok, evn
         base = 1
         for nm, s, first in cans:
@@ -514,14 +516,12 @@ def run(ck):
 def replay(ck, path):
     """Re-judge the stored segment with TLC and re-execute the stored script against the current tree."""
     rp = json.load(open(path))["replay"]
-    ck.build_vh()
     binary, _ = build_race(ck)
-    cfg = trace_cfg(ck)
     rc = 0
     if rp.get("segment"):
         tp = os.path.join(ck.work, "stored.ndjson")
         vlib.write_ndjson(tp, rp["segment"] + [{"k": "End"}])
-        _, rej = ck.validate_segments("LiteClient_Trace", cfg, tp, name="stored")
+        _, rej = ck.validate_segments("LiteClient_Trace", trace_cfg(ck, rp["segment"][0]["nconns"], rp["segment"][0]["ncalls"]), tp, name="stored")
         for rj in rej:
             print("LiteClient_Trace rejects the stored execution at event %d of %d: %s" % (rj["accepted"], rj["length"], json.dumps(short(rj["event"]))))
     if rp.get("script"):
@@ -531,7 +531,7 @@ def replay(ck, path):
             if x.res is None and not fs:
                 raise Infra("re-execution failed (rc=%s):\n%s" % (x.rc, x.stderr[-2000:]))
             if x.script["mode"] == "traced" and x.trace and x.res is not None:
-                rj = validate(ck, cfg, [x], "replay%d" % n)[x.script["id"]]
+                rj = validate(ck, [x], "replay%d" % n)[x.script["id"]]
                 if rj:
                     fs.append((trace_key(rj, x.res), "accepted %d of %d events; rejected event %s" % (rj["accepted"], rj["length"], json.dumps(short(rj["event"])))))
             print("re-execution %d: %s" % (n + 1, json.dumps({k: v for k, v in (x.res or {}).items() if k not in ("notes",)})))
